@@ -339,10 +339,11 @@ Qed.
 
 Lemma Inv_step w e : Inv w -> wf_event w e -> Inv (fst (step w e)).
 Proof.
-  intros I Hwf. destruct e as [now|rp d|g l|]; cbn [step fst].
+  intros I Hwf. destruct e as [now|rp d|g l|now'|]; cbn [step fst].
   - apply Inv_tick, I.
   - apply Inv_alter, I.
   - apply Inv_add_group; assumption.
+  - exact I.
   - apply Inv_restart, I.
 Qed.
 
